@@ -84,6 +84,21 @@ def run(e: Engine, rep: Report):
     x3(e, rep)
     x4(e, rep)
     x5(e, rep)
+    rep.rule('X6', 'address provenance on the SMTP server: what MAIL / RCPT '
+             'hand to the application is the text between the delimiters, '
+             'sliced and decoded only (no operation that can cut inside it: '
+             'table ADDRESS_CUTTERS)')
+    rep.rule('X7', 'null sender over HTTP: WsgiEdge._get_sender never '
+             'refuses a request because the sender header value is empty '
+             '(the empty value IS the null sender the relay writes for '
+             'bounces)')
+    rep.rule('X8', 'the SMTP relay hands send_data exactly the parts '
+             'flatten() returned, whole and in order (a part boundary is a '
+             'line start for the dot-stuffer)')
+    rep.tables.add('c06.ADDRESS_CUTTERS')
+    x6(e, rep)
+    x7(e, rep)
+    x8(e, rep)
     rep.floor('X1', 4, 'command framing obligations')
     rep.floor('X4', 6, 'HTTP agreement obligations')
 
@@ -615,3 +630,297 @@ def x5(e: Engine, rep: Report):
     rep.functions.add(ctx.func.qname)
     order_free(ctx.func.node, 'the edge builds the recipient list in header '
                'order', ctx.func.qname, ctx.func.loc())
+
+
+# ---------------------------------------------------------------------- X6
+# operations that can drop or change characters inside an address
+ADDRESS_CUTTERS = {'partition', 'rpartition', 'split', 'rsplit', 'strip',
+                   'lstrip', 'rstrip', 'replace', 'lower', 'upper',
+                   'casefold', 'title', 'translate', 'removeprefix',
+                   'removesuffix', 'splitlines', 'expandtabs', 'sub',
+                   'normalize'}
+
+
+def x6(e: Engine, rep: Report):
+    n = 0
+    for meth, cb in (('_command_MAIL', 'MAIL'), ('_command_RCPT', 'RCPT')):
+        ctx = e.method_ctx(SERVER, meth)
+        g = e.build(ctx, raises=lambda b, nn, r: set(),
+                    inline=e.inline_same_self(deny=['_call_custom_handler',
+                                                    '_gather_params']),
+                    max_depth=3)
+        where = ctx.func.qname
+        rep.functions.add(where)
+        argp = ctx.func.params[1]
+        sites = [c for c in g.calls()
+                 if e.call_name(c) == '_call_custom_handler' and
+                 c.ast.args and isinstance(c.ast.args[0], ast.Constant) and
+                 c.ast.args[0].value == cb and len(c.ast.args) >= 3]
+        if not sites:
+            rep.error('anchor vanished: %s callback in %s' % (cb, where))
+            continue
+
+        def tuple_values(x, fr, depth=0):
+            """tuple displays a value may be (None results skipped), or
+            None when it cannot be read"""
+            if depth > 8:
+                return None
+            x, fr = common.origin(g, x, fr)
+            if isinstance(x, ast.Tuple):
+                return [(x, fr)]
+            if isinstance(x, ast.Constant) and x.value is None:
+                return []
+            if isinstance(x, ast.Call):
+                vals = common.values_of(g, x, fr)
+                if len(vals) == 1 and vals[0][0] is x:
+                    return None
+                out = []
+                for v, f2 in vals:
+                    r = tuple_values(v, f2, depth + 1)
+                    if r is None:
+                        return None
+                    out += r
+                return out
+            if isinstance(x, ast.Name):
+                defs = [s2 for s2 in g.of_kind('stmt') if s2.frame is fr and
+                        isinstance(s2.ast, ast.Assign) and any(
+                            isinstance(t, ast.Name) and t.id == x.id
+                            for t in s2.ast.targets)]
+                if not defs:
+                    return None
+                out = []
+                for d in defs:
+                    r = tuple_values(d.ast.value, fr, depth + 1)
+                    if r is None:
+                        return None
+                    out += r
+                return out
+            return None
+
+        def verdict(x, fr, depth=0):
+            """None = fine; str = what cuts; 'UNKNOWN:..' = cannot read"""
+            if depth > 8:
+                return 'UNKNOWN:nesting'
+            x, fr = common.origin(g, x, fr)
+            if isinstance(x, ast.Name):
+                if x.id == argp and fr is g.entry.frame:
+                    return None
+                # several definitions: every one of them
+                defs = [s2 for s2 in g.of_kind('stmt') if s2.frame is fr and
+                        isinstance(s2.ast, ast.Assign) and any(
+                            isinstance(t, ast.Name) and t.id == x.id
+                            for t in s2.ast.targets)]
+                # `address, rest = parsed` / `= self._helper(...)`
+                tdefs = [s2 for s2 in g.of_kind('stmt') if s2.frame is fr and
+                         isinstance(s2.ast, ast.Assign) and
+                         len(s2.ast.targets) == 1 and
+                         isinstance(s2.ast.targets[0], ast.Tuple) and any(
+                             isinstance(t, ast.Name) and t.id == x.id
+                             for t in s2.ast.targets[0].elts)]
+                if not defs and not tdefs:
+                    return 'UNKNOWN:`%s`' % x.id
+                for d in defs:
+                    v = verdict(d.ast.value, fr, depth + 1)
+                    if v:
+                        return v
+                for d in tdefs:
+                    tg = d.ast.targets[0]
+                    i = [k for k, t in enumerate(tg.elts)
+                         if isinstance(t, ast.Name) and t.id == x.id][0]
+                    tv = tuple_values(d.ast.value, fr, depth + 1)
+                    if tv is None:
+                        return 'UNKNOWN:`%s`' % ' '.join(
+                            ast.unparse(d.ast).split())[:50]
+                    for v2, f2 in tv:
+                        if len(v2.elts) != len(tg.elts):
+                            return 'UNKNOWN:tuple sizes'
+                        v = verdict(v2.elts[i], f2, depth + 1)
+                        if v:
+                            return v
+                return None
+            if isinstance(x, ast.Subscript):
+                if isinstance(x.slice, ast.Slice) and x.slice.step is None:
+                    base = verdict(x.value, fr, depth + 1)
+                    if base:
+                        return base
+                    # the text between the delimiters, from the server's
+                    # own scan: plain names / arithmetic on them
+                    return None
+                return 'takes `%s`' % ' '.join(ast.unparse(x).split())[:50]
+            if isinstance(x, ast.Call):
+                f = x.func
+                nm = f.attr if isinstance(f, ast.Attribute) else (
+                    f.id if isinstance(f, ast.Name) else None)
+                if nm in ('decode', 'encode') and isinstance(f,
+                                                              ast.Attribute):
+                    return verdict(f.value, fr, depth + 1)
+                if nm in ADDRESS_CUTTERS:
+                    return 'passes it through `%s`' % ' '.join(
+                        ast.unparse(x).split())[:60]
+                if nm in ('str', 'bytes') and len(x.args) == 1:
+                    return verdict(x.args[0], fr, depth + 1)
+                # a function of the module with one return: its body decides
+                try:
+                    r = e.r.resolve_call(x, fr.ctx)
+                except Exception:
+                    r = None
+                if r is not None and len(r.targets) == 1:
+                    t = r.targets[0].func
+                    rets = [y for y in walk_own(t.node)
+                            if isinstance(y, ast.Return)]
+                    if len(rets) == 1 and rets[0].value is not None:
+                        bad = [y for y in ast.walk(rets[0].value)
+                               if isinstance(y, ast.Call) and
+                               isinstance(y.func, ast.Attribute) and
+                               y.func.attr in ADDRESS_CUTTERS]
+                        if bad:
+                            return 'passes it through %s(), which does ' \
+                                '`%s`' % (t.name, ' '.join(
+                                    ast.unparse(bad[0]).split())[:50])
+                    return 'UNKNOWN:helper `%s`' % t.name
+                return 'UNKNOWN:`%s`' % ' '.join(ast.unparse(x).split())[:50]
+            return 'UNKNOWN:`%s`' % ' '.join(ast.unparse(x).split())[:50]
+        for c in sites:
+            n += 1
+            rep.evaluations += 1
+            v = verdict(c.ast.args[2], c.frame)
+            if v and v.startswith('UNKNOWN:'):
+                rep.unknown('X6', where, 'address handed to the %s callback'
+                            % cb, 'cannot read where `%s` comes from: %s' % (
+                                ast.unparse(c.ast.args[2]), v[8:]),
+                            loc=c.loc())
+                continue
+            rep.check(v is None, 'X6', where,
+                      'address handed to the %s callback' % cb,
+                      'the address the server hands on %s: a valid address '
+                      'that contains what is cut at (a quoted local part, an '
+                      'address literal) reaches the application changed'
+                      % (v or ''), loc=c.loc(),
+                      reason='slice of the argument between the '
+                      'delimiters, decoded')
+    if n < 2:
+        rep.error('anchor vanished: MAIL / RCPT callback sites (%d < 2)' % n)
+
+
+# ---------------------------------------------------------------------- X7
+def x7(e: Engine, rep: Report):
+    ctx = e.method_ctx(WSGI, '_get_sender')
+    g = e.build(ctx, raises=lambda b, nn, r: set(),
+                inline=e.inline_same_self(), max_depth=3)
+    fx = e.facts(g)
+    where = ctx.func.qname
+    rep.functions.add(where)
+    from ..facts import path_of
+    # locals that hold the header value as it came in
+    hv = set()
+    for s2 in g.of_kind('stmt'):
+        if isinstance(s2.ast, ast.Assign) and len(s2.ast.targets) == 1 and \
+                isinstance(s2.ast.targets[0], ast.Name):
+            v = s2.ast.value
+            if (isinstance(v, ast.Call) and
+                    isinstance(v.func, ast.Attribute) and
+                    v.func.attr == 'get' and
+                    isinstance(v.func.value, ast.Name)) or (
+                    isinstance(v, ast.Subscript) and
+                    isinstance(v.value, ast.Name) and
+                    v.value.id in ctx.func.params):
+                hv.add(path_of(s2.ast.targets[0], s2.frame))
+    rep.evaluations += 1
+    refusals = [n for n in g.of_kind('stmt') if isinstance(n.ast, ast.Raise)]
+    bad = None
+    for r in refusals:
+        st = fx.at(r)
+        if st is None:
+            continue
+        for p, k in st:
+            if (not p and k in hv) or (
+                    p and any(k == "%s == ''" % h or k == "%s == b''" % h or
+                              k == 'len(%s) == 0' % h for h in hv)):
+                bad = r
+    rep.check(bad is None, 'X7', where,
+              'an empty sender header is not refused',
+              'the request is refused when the sender header value is '
+              'falsy: the relay writes the null sender (bounces, '
+              'notifications) as an EMPTY header value, so those messages '
+              'are rejected at this hop instead of being handed on',
+              loc=bad.loc() if bad else ctx.func.loc(),
+              reason='no refusal guarded by the truthiness of the header '
+              'value (%d refusals looked at)' % len(refusals))
+
+
+# ---------------------------------------------------------------------- X8
+def x8(e: Engine, rep: Report):
+    n = 0
+    for cq in e.concrete_classes(SMTPC):
+        ctx = e.method_ctx(cq, '_send_message_data')
+        g = e.build(ctx, raises=lambda b, nn, r: set(),
+                    inline=e.inline_same_self(), max_depth=3)
+        where = '%s[%s]' % (ctx.func.qname, cq.rpartition('.')[2])
+        rep.functions.add(ctx.func.qname)
+        sends = [c for c in g.nodes if c.kind == 'call' and
+                 e.call_name(c) in ('send_data',)]
+        if not sends:
+            rep.error('anchor vanished: send_data in ' + where)
+            continue
+        # names unpacked from envelope.flatten()
+        parts = None
+        for s2 in g.of_kind('stmt'):
+            if isinstance(s2.ast, ast.Assign) and \
+                    isinstance(s2.ast.value, ast.Call) and \
+                    isinstance(s2.ast.value.func, ast.Attribute) and \
+                    s2.ast.value.func.attr == 'flatten' and \
+                    isinstance(s2.ast.targets[0], ast.Tuple) and all(
+                        isinstance(t, ast.Name)
+                        for t in s2.ast.targets[0].elts):
+                parts = [(t.id, s2.frame) for t in s2.ast.targets[0].elts]
+        if parts is None:
+            rep.unknown('X8', where, 'send_data is given the flattened '
+                        'parts', 'cannot see envelope.flatten() unpacked '
+                        'into names here', loc=ctx.func.loc())
+            continue
+        for c in sends:
+            n += 1
+            rep.evaluations += 1
+            got = []
+            for a in c.ast.args:
+                if isinstance(a, ast.Starred):
+                    got.append('*' + ast.unparse(a.value))
+                    continue
+                x, fr = common.origin(g, a, c.frame, follow_locals=False)
+                if isinstance(x, ast.Subscript) and \
+                        isinstance(x.slice, ast.Constant) and \
+                        isinstance(x.slice.value, int) and \
+                        isinstance(x.value, ast.Name):
+                    # parts = (a, b); parts[0]
+                    tv, tf = common.origin(g, x.value, fr)
+                    if isinstance(tv, (ast.Tuple, ast.List)) and \
+                            0 <= x.slice.value < len(tv.elts):
+                        x, fr = common.origin(g, tv.elts[x.slice.value], tf,
+                                              follow_locals=False)
+                if isinstance(x, ast.Name) and (x.id, fr) not in parts:
+                    # a free variable of a closure defined where flatten()
+                    # was unpacked
+                    fn = fr.ctx.func
+                    local = x.id in fn.params or any(
+                        isinstance(y, ast.Name) and y.id == x.id and
+                        isinstance(y.ctx, ast.Store)
+                        for y in walk_own(fn.node))
+                    for pn, pf in parts:
+                        if pn == x.id and not local and any(
+                                y is fn.node
+                                for y in ast.walk(pf.ctx.func.node)):
+                            fr = pf
+                got.append(x.id if isinstance(x, ast.Name) and
+                           (x.id, fr) in parts else
+                           '<%s>' % ' '.join(ast.unparse(a).split())[:40])
+            want = [p for p, _ in parts]
+            rep.check(got == want and not c.ast.keywords, 'X8', where,
+                      'send_data is given the flattened parts',
+                      'send_data is called with %s instead of the parts %s '
+                      'that flatten() returned: the data sender treats the '
+                      'start of every part as the start of a line, so a '
+                      'part cut elsewhere gets a dot doubled (or bytes are '
+                      'left out / repeated)' % (got, want), loc=c.loc(),
+                      reason='arguments are exactly %s' % want)
+    if n < 1:
+        rep.error('anchor vanished: send_data sites (%d < 1)' % n)
